@@ -18,6 +18,7 @@ from vf.common import Check, short
 CP = None
 TOK = None
 KNOWN_ALIAS = 'type_check_references:alias-root-unresolved'
+KNOWN_QNAME = 'rejected:quantifier-variable-name-reused-at-different-types'
 
 
 def init():
@@ -60,6 +61,16 @@ def case(spec):
         e = gen.build(spec)
         pred = HplPredicateExpression(e) if sem.kind(e) != 'HplLiteral' else None
     except Exception as ex:
+        if isinstance(ex, TypeError):
+            # recorded defect class: two quantifiers reuse a variable NAME at different types (the same-reference check ignores scoping);
+            # membership is decided on the real code: the predicate is accepted once the quantified variables are renamed apart
+            try:
+                e2 = gen.build(S.rename_quantifiers_apart(spec))
+                if sem.kind(e2) != 'HplLiteral':
+                    HplPredicateExpression(e2)
+                return [(KNOWN_QNAME, f'well-typed «{text}» is rejected with a TypeError but accepted after renaming its quantified variables apart', rep)], 1
+            except Exception:
+                pass
         return [(f'rejected:{type(ex).__name__}@{text}', f'well-typed «{text}» rejected by the callbacks: {type(ex).__name__}: {short(ex, 120)}', rep)], 1
     if pred is None:
         return [], 0
@@ -86,14 +97,33 @@ def case(spec):
             continue
         if not (n.data_type.value & S.type_mask(t)):
             found.append((f'inferred-type-excludes-schema-type@{text}', f'in «{text}» reference «{n}» is inferred {n.data_type!r} but the schema says {t}', rep))
-    # property-level check against the schemas
+    # property-level check against the schemas: the predicate sits where @A is in scope, in every binding arrangement
     uses_alias = sem.mentions_var(pred.condition, 'A')
     ev_b = ('ev', 't2', None, spec)
+    host = ('ev', 't1', 'A', None)
+    plain = ('ev', 't3', None, None)
+    arrangements = [
+        {'scope': 'globally', 'pattern': 'response', 'trigger': host, 'behaviour': ev_b},
+        {'scope': 'globally', 'pattern': 'prevention', 'trigger': host, 'behaviour': ev_b},
+        {'scope': 'globally', 'pattern': 'requirement', 'behaviour': host, 'trigger': ev_b},      # b as A requires t2 {...@A...}
+        {'scope': 'after', 'pattern': 'existence', 'activator': host, 'behaviour': ev_b},
+        {'scope': 'after_until', 'pattern': 'absence', 'activator': host, 'terminator': ev_b, 'behaviour': plain},
+        {'scope': 'after', 'pattern': 'requirement', 'activator': host, 'behaviour': plain, 'trigger': ev_b},
+    ]
+    k = (hash(text) % len(arrangements))
+    for j, arr in enumerate(arrangements):
+        if j not in (0, k):
+            continue
+        q = {'scope': 'globally', 'pattern': 'response', 'activator': None, 'terminator': None, 'trigger': None, 'behaviour': None, 'max_time': None, 'meta': None}
+        q.update(arr)
+        try:
+            props.build_property(q)
+        except Exception as ex:
+            found.append((f'property-rejected:{type(ex).__name__}:{arr["scope"]}/{arr["pattern"]}@{text}', f'property «{props.render_property(q)}» around a well-typed predicate rejected: {type(ex).__name__}: {short(ex, 100)}', rep))
     p = {'scope': 'globally', 'pattern': 'response', 'activator': None, 'terminator': None, 'trigger': ('ev', 't1', 'A', None), 'behaviour': ev_b, 'max_time': None, 'meta': None}
     try:
         prop = props.build_property(p)
     except Exception as ex:
-        found.append((f'property-rejected:{type(ex).__name__}@{text}', f'property around well-typed «{text}» rejected: {type(ex).__name__}: {short(ex, 100)}', rep))
         return found, 1
     this_tok, alias_tok = TOK
     try:
@@ -164,7 +194,7 @@ def main() -> int:
                 ck.undecided(found[0][1])
                 continue
             total += n
-            real = [f for f in found if f[0] != KNOWN_ALIAS]
+            real = [f for f in found if f[0] not in (KNOWN_ALIAS, KNOWN_QNAME)]
             ck.obligation(not real)
             for sig, what, rep in found:
                 ck.counterexample(sig, what, rep)
